@@ -800,6 +800,7 @@ class ParametricSpectrum(Spectrum):
         #new user attributes
         self.__ar_order = ar_order
         self.__ma_order = ma_order
+        self.__lag = lag
         self.ar_order = ar_order
         self.ma_order = ma_order
         self.lag = lag
@@ -813,12 +814,16 @@ class ParametricSpectrum(Spectrum):
         if ar is not None:
             if ar < 0:
                 raise errors.SpectrumARError
+            if ar != self.__ar_order:
+                self.modified = True
             self.__ar_order = ar
     def _get_ar_order(self):
         return self.__ar_order
     ar_order = property(fget=_get_ar_order, fset=_set_ar_order, doc="")
 
     def _set_ma_order(self, ma):
+        if ma != self.__ma_order:
+            self.modified = True
         if ma is not None:
             if ma < 0:
                 raise errors.SpectrumMAError
@@ -828,6 +833,14 @@ class ParametricSpectrum(Spectrum):
     def _get_ma_order(self):
         return self.__ma_order
     ma_order = property(fget=_get_ma_order, fset=_set_ma_order, doc="")
+
+    def _set_lag(self, lag):
+        if lag != self.__lag:
+            self.modified = True
+        self.__lag = lag
+    def _get_lag(self):
+        return self.__lag
+    lag = property(fget=_get_lag, fset=_set_lag, doc="")
 
     def _set_ma(self, ma):
         self.__ma = ma
